@@ -218,6 +218,10 @@ func faultList() []fault {
 		{"unsupported-flag", setRa(func(s string) string { return "##!+ x\n" + s }), func(ra raFile) [][]string {
 			return append(genCmds(ra), []string{"regex", "format", ra.arg})
 		}},
+		{"unsupported-flag-uppercase", setRa(func(s string) string { return "##!+ I\n" + s }), genCmds},
+		{"unsupported-flag-digit", setRa(func(s string) string { return s + "##!+ 1\n" }), genCmds},
+		{"unsupported-flag-list", setRa(func(s string) string { return "##!+ i,s\n" + s }), genCmds},
+		{"unsupported-flag-among-good", setRa(func(s string) string { return "##!+ iXs\n" + s }), genCmds},
 		{"odd-replacement-list", func(ct *crsTree, ra raFile) {
 			ct.t["regex-assembly/include/w.ra"] = []byte("a@\n")
 			ct.t[ra.path] = append(ct.t[ra.path], []byte("##!> include w -- @\n")...)
@@ -421,6 +425,23 @@ func oracleC08(p *Pair, env *Env, a [][]byte) *Failure {
 	defer os.RemoveAll(sbOne)
 	_ = t.write(sbAll)
 	_ = t.write(sbOne)
+	if len(a) > 3 && string(a[3]) == "symlink" {
+		// one rule's assembly file is a symbolic link to a file kept elsewhere in the checkout: a file is a file for
+		// --all as for the single invocation
+		for _, arg := range order {
+			if len(arg) < 6 || arg[0] < '0' || arg[0] > '9' {
+				continue
+			}
+			for _, sb := range []string{sbAll, sbOne} {
+				src := filepath.Join(sb, "regex-assembly", arg+".ra")
+				_ = os.MkdirAll(filepath.Join(sb, "linked"), 0o755)
+				if err := os.Rename(src, filepath.Join(sb, "linked", arg+".data")); err == nil {
+					_ = os.Symlink(filepath.Join("..", "linked", arg+".data"), src)
+				}
+			}
+			break
+		}
+	}
 	all := runCLI(env, sbAll, nil, "-l", "disabled", "regex", cmd, "-a")
 	var singles [][]byte
 	exitOne := 0
@@ -564,8 +585,13 @@ func genC08(r *rand.Rand, tier string, env *Env) []Case {
 			for o := 0; o < orders; o++ {
 				perm := append([]string{}, args...)
 				r.Shuffle(len(perm), func(i, j int) { perm[i], perm[j] = perm[j], perm[i] })
-				cases = append(cases, Case{Kind: "all-vs-singles:" + cmd,
-					Oracles: []Op{{"c08.all", [][]byte{encodeTree(ct.t), []byte(cmd), []byte(strings.Join(perm, "\x00"))}}}})
+				oargs := [][]byte{encodeTree(ct.t), []byte(cmd), []byte(strings.Join(perm, "\x00"))}
+				kindC := "all-vs-singles:" + cmd
+				if (i+o)%4 == 3 {
+					oargs = append(oargs, []byte("symlink"))
+					kindC += "+symlink"
+				}
+				cases = append(cases, Case{Kind: kindC, Oracles: []Op{{"c08.all", oargs}}})
 			}
 		}
 	}
@@ -714,7 +740,7 @@ func genC18(r *rand.Rand, tier string, env *Env) []Case {
 		case 5:
 			arg = id + "-chain" + pick(r, []string{"", "x", "-1", "256", "255", "0", "007", "99999999999999999999999", "1.5", "٣"})
 		case 6:
-			arg = id + pick(r, []string{".raa", ".r", ".ra.ra", "-chain1.raX", " ", "-chain1-chain2", ".RA", "-Chain1", "x"})
+			arg = id + pick(r, []string{".raa", ".r", ".ra.ra", "-chain1.raX", " ", "-chain1-chain2", ".RA", "-Chain1", "x", "xra", "-ra", "7ra", "-chain2-ra", "-chain25ra", "-chain2xra", "ra", ".ra\n"})
 		case 7:
 			arg = pick(r, []string{"", "-", "foo", "unix-shell", " 942100", "942100 ", "942100\n", "94210a", "x/942100", "942100/", "./942100.ra", "../942100-chain1"})
 		case 8:
@@ -723,15 +749,17 @@ func genC18(r *rand.Rand, tier string, env *Env) []Case {
 		cases = append(cases, Case{Kind: "argument", Ops: []Op{{"ruleid.parse", [][]byte{[]byte(arg)}}}})
 	}
 	// resolution through the binary
-	m := 29
+	m := 35
 	if tier == "thorough" {
-		m = 150
+		m = 160
 	}
 	c18Tree := func(extra ...string) Tree {
 		t := Tree{"regex-assembly/942100.ra": []byte("plain\n"), "regex-assembly/942100-chain1.ra": []byte("chainone\n"), "regex-assembly/942100-chain255.ra": []byte("last\n"),
 			"regex-assembly/942100-chain256.ra": []byte("toolarge\n"), "regex-assembly/94210.ra": []byte("short\n"), "regex-assembly/9421000.ra": []byte("long\n"),
 			"regex-assembly/942100-chain01.ra": []byte("leadingzero\n"), "regex-assembly/942100-chain007.ra": []byte("bond\n"), "regex-assembly/942100-chain7.ra": []byte("seven\n"),
 			"regex-assembly/942100-chain0.ra": []byte("zero\n"), "regex-assembly/942100-chain19.ra": []byte("nineteen\n"),
+			"regex-assembly/942100xra.ra": []byte("junkx\n"), "regex-assembly/942100-ra.ra": []byte("junkdash\n"), "regex-assembly/9421007ra.ra": []byte("junk7\n"),
+			"regex-assembly/942100-chain1-ra.ra": []byte("junkc\n"), "regex-assembly/942100-chain25ra.ra": []byte("junk25\n"), "regex-assembly/942100-chain1xra.ra": []byte("junk1x\n"),
 			"rules/REQUEST-942-X.conf": []byte("SecRule ARGS \"@rx a\" \\\n    \"id:942100,\\\n    chain\"\n    SecRule ARGS \"@rx b\" \\\n    \"t:none\"\n")}
 		for _, e := range extra {
 			t[e] = []byte("extra" + e + "\n")
@@ -746,7 +774,9 @@ func genC18(r *rand.Rand, tier string, env *Env) []Case {
 		{"942100-chain256", ""}, {"942100-chain256.ra", ""}, {"94210", ""}, {"9421000", ""}, {"942100-chain", ""}, {"942100.raa", ""}, {"942100-chain300", ""}, {"942100-chain99999999999999999999", ""},
 		// path-like arguments: the argument is a rule id, never a path to the assembly file
 		{"x/942100.ra", ""}, {"../942100-chain1", ""}, {"942100/", ""}, {"999999/942100", ""}, {"/tmp/elsewhere/942100.ra", ""}, {"./942100", ""},
-		{"regex-assembly/942100.ra", ""}, {"942100.ra/", ""}, {"regex-assembly/942100-chain1", ""}, {"942100-chain257", ""}, {"942100-chain511.ra", ""}}
+		{"regex-assembly/942100.ra", ""}, {"942100.ra/", ""}, {"regex-assembly/942100-chain1", ""}, {"942100-chain257", ""}, {"942100-chain511.ra", ""},
+		// a character where the dot of the extension belongs
+		{"942100xra", ""}, {"942100-ra", ""}, {"9421007ra", ""}, {"942100-chain1-ra", ""}, {"942100-chain25ra", ""}, {"942100-chain1xra", ""}}
 	for i := 0; i < m; i++ {
 		e := exs[i%len(exs)]
 		if i >= len(exs) {
@@ -781,6 +811,19 @@ func genC18(r *rand.Rand, tier string, env *Env) []Case {
 // ---- C17: no silent truncation -------------------------------------------------------------------
 
 // args: site, length (decimal), position ("first"/"middle"/"last"), final newline ("1"/"0")
+// longLine: n letters, not all the same — every 4096-byte stretch has its own letter and every 64 KiB stretch starts
+// with a capital, so that a stretch copied over another one shows
+func longLine(n int) string {
+	b := make([]byte, n)
+	for i := range b {
+		b[i] = byte('a' + (i/4096)%26)
+		if i%65536 == 0 {
+			b[i] = byte('A' + (i/65536)%26)
+		}
+	}
+	return string(b)
+}
+
 // companions: the other lines of the file that must be carried through — none when the long line is the whole file
 func companions(ws []string, pos string) []string {
 	if pos == "only" {
@@ -791,7 +834,7 @@ func companions(ws []string, pos string) []string {
 
 func oracleC17(p *Pair, env *Env, a [][]byte) *Failure {
 	site, n, pos, nl := string(a[0]), num(a[1]), string(a[2]), string(a[3]) == "1"
-	long := strings.Repeat("a", n)
+	long := longLine(n)
 	place := func(lines []string, l string) []string {
 		switch pos {
 		case "only":
@@ -897,6 +940,46 @@ func oracleC17(p *Pair, env *Env, a [][]byte) *Failure {
 		} else if !re.MatchString(pre + long + suf) {
 			return fail("the long entry itself is missing", "")
 		}
+	case "rules-file":
+		// update and compare read the rules file: a rule whose operand line is long, before / after / instead of the
+		// addressed one
+		rule := func(id, operand string) []string {
+			return []string{"SecRule ARGS \"@rx " + operand + "\" \\", "    \"id:" + id + ",\\", "    phase:2\""}
+		}
+		var ls []string
+		switch pos {
+		case "only":
+			ls = rule("942100", long)
+		case "first":
+			ls = append(rule("942100", long), rule("942110", "zzq1")...)
+		case "last":
+			ls = append(rule("942110", "zzq1"), rule("942100", long)...)
+		default:
+			ls = append(append(rule("942120", "zzq0"), rule("942100", long)...), rule("942110", "zzq1")...)
+		}
+		content := join(ls)
+		rd := p.Impl(Op{"update.read", [][]byte{content, []byte("942100"), {}}}, env.timeout)
+		if rd.Status != "ok" || string(rd.Out[0]) != long {
+			return fail("compare does not read the long operand back", rd.Status)
+		}
+		if pos != "only" {
+			rd = p.Impl(Op{"update.read", [][]byte{content, []byte("942110"), {}}}, env.timeout)
+			if rd.Status != "ok" || string(rd.Out[0]) != "zzq1" {
+				return fail("compare does not find the rule next to the long line", rd.String())
+			}
+			up := p.Impl(Op{"update.apply", [][]byte{content, []byte("942110"), {}, []byte("zzq2")}}, env.timeout)
+			if up.Status != "ok" || !bytes.Contains(up.Out[0], []byte(long)) || !bytes.Contains(up.Out[0], []byte("\"@rx zzq2\"")) {
+				return fail("update of the rule next to the long line loses text", up.Status)
+			}
+		}
+		up := p.Impl(Op{"update.apply", [][]byte{content, []byte("942100"), {}, []byte(long + "b")}}, env.timeout)
+		if up.Status != "ok" {
+			return fail("update of the long operand fails", up.Status)
+		}
+		rd = p.Impl(Op{"update.read", [][]byte{up.Out[0], []byte("942100"), {}}}, env.timeout)
+		if rd.Status != "ok" || string(rd.Out[0]) != long+"b" {
+			return fail("compare after update does not read the long operand back", rd.Status)
+		}
 	case "format":
 		in := join(place([]string{"##!> assemble", "  zzq1", "##!<", "zzq2"}, long))
 		f := p.Impl(Op{"format.file", [][]byte{in}}, env.timeout)
@@ -940,7 +1023,7 @@ func genC17(r *rand.Rand, tier string, env *Env) []Case {
 		lengths = []int{1, 4095, 4096, 65534, 65535, 65536, 65537, 65538, 100000, 131072, 131073, 262143, 262144, 262145, 300000, 524288, 1048576, 1048577, 4194305}
 	}
 	var cases []Case
-	sites := []string{"generate", "generate-defined", "generate-include-defined", "generate-include", "generate-include-prefixed", "generate-include-suffixed", "generate-nested-include", "generate-replace-suffixes", "generate-include-except", "generate-exclude-file", "format", "renumber", "copyright"}
+	sites := []string{"generate", "generate-defined", "generate-include-defined", "generate-include", "generate-include-prefixed", "generate-include-suffixed", "generate-nested-include", "generate-replace-suffixes", "generate-include-except", "generate-exclude-file", "format", "renumber", "copyright", "rules-file"}
 	for _, site := range sites {
 		for _, n := range lengths {
 			if (site == "generate" || site == "generate-defined") && n > 140000 && n != 262144 {
@@ -956,7 +1039,7 @@ func genC17(r *rand.Rand, tier string, env *Env) []Case {
 				}
 				c := Case{Kind: "long-line:" + site, Oracles: []Op{{"c17.carry", [][]byte{[]byte(site), []byte(fmt.Sprint(n)), []byte(pos), []byte(nl)}}}}
 				// the same input through model and code (the model's scanner has no limit)
-				long := strings.Repeat("a", n)
+				long := longLine(n)
 				switch site {
 				case "renumber":
 					c.Ops = []Op{{"renumber.processYaml", [][]byte{[]byte("920100"), []byte("  - test_id: 7\n    data: " + long + "\n  - test_id: 9\n")}}}
@@ -988,7 +1071,7 @@ func init() {
 	properties["C15"] = &Property{ID: "C15", LeanMods: []string{"CrsProps.C15"}, Corr: "K10 (binary on sandbox trees, recursive snapshot path/size/sha256/mode before and after)", Workers: 8,
 		Rule: treeRule + "19-20 command lines per tree (inspecting and rewriting commands, single target / --all / --check / -o github), run from the root, with -d root, -d subdirectory, relative -d; non-trivial = every run; distinct by (tree, command, mode)", Gen: genC15}
 	properties["C16"] = &Property{ID: "C16", LeanMods: []string{"CrsProps.C16"}, Corr: "K10 (exit status, stdout, tree snapshot under single injected faults)", Workers: 8,
-		Rule: treeRule + "one fault of 26 classes injected into the first/middle/last assembly file (or the rules file / argument / version), every command the fault concerns; non-trivial = every run; distinct by (tree, fault, command)", Gen: genC16,
+		Rule: treeRule + "one fault of 30 classes injected into the first/middle/last assembly file (or the rules file / argument / version), every command the fault concerns; non-trivial = every run; distinct by (tree, fault, command)", Gen: genC16,
 		Assume: []string{"known finding D19: update --all / format --all are not atomic — targets of assembly files preceding the faulty one (format: any other file) are already rewritten when the run fails"}}
 	properties["C08"] = &Property{ID: "C08", LeanMods: []string{"CrsProps.C08"}, Corr: "K10 (tree after --all vs tree after the single invocations in a random order; compare verdict lines)", Workers: 8,
 		Rule: treeRule + "update/format/compare --all against the sequence of single invocations in 2 (quick) / 6 (thorough) random orders; assembly files share stored names and definition names; non-trivial = trees with at least two assembly files; distinct by (tree, command, order)", Gen: genC08}
